@@ -516,11 +516,13 @@ pub fn stress_uid(num_threads: usize, calls: usize, out: &mut dyn Write) {
     // all calls, listed in the modification order of the atomic counter (= by returned index);
     // ties (which the specification forbids) keep thread order so that the validator sees them
     let mut all: Vec<(u32, usize, usize)> = Vec::new();
+    let mut randoms: Vec<i64> = Vec::new();
     let mut neg = 0;
     for (t, h) in handles.into_iter().enumerate() {
         let v = h.join().unwrap();
         for (k, x) in v.iter().enumerate() {
             all.push((x.0, t + 1, k + 1));
+            randoms.push(x.2);
             if x.2 < 0 {
                 neg += 1;
             }
@@ -531,4 +533,5 @@ pub fn stress_uid(num_threads: usize, calls: usize, out: &mut dyn Write) {
         emit(out, "uid", json!({"op": "fetch", "t": t, "k": k, "ret": idx}));
     }
     let _ = neg;
+    emit(out, "uid", json!({"op": "randoms", "calls": randoms.len(), "distinct": randoms.iter().collect::<std::collections::HashSet<_>>().len()}));
 }
